@@ -535,7 +535,10 @@ def execute_diff(sc) -> Outcome:
             if short and sa[0] == sb[0] == "exc" and sa[1].endswith("Timeout") and sb[1].endswith("Timeout"):
                 continue  # which of the 0.06 s limits expired first is a matter of timing
             stall = (sc.get("fault") or {}).get("kind") in ("stall", "tls-stall", "connect-stall", "read-stall")
-            if short and stall and sa[0] == sb[0] == "exc" and sa[1].endswith("Timeout") != sb[1].endswith("Timeout"):
+            if (short and stall and sa[0] == sb[0] == "exc" and sa[1].endswith("Timeout") != sb[1].endswith("Timeout")
+                    and ref["fired"] and recs[variant]["fired"] and sc["kind"] not in REFUSALS):
+                # (only where the silence was actually reached in both runs, and the scenario itself does not end in a refusal: otherwise the
+                # error class is the scenario's own outcome and the Timeout a 0.06 s limit that expired early on a busy machine)
                 # a silent peer: one variant reports an expired limit, the other an error. Load can make a DIFFERENT limit expire (a Timeout class
                 # again) or none at all, but it cannot turn silence into a network / protocol error: the variants disagree about the class
                 vio.append(V("C18", "diff-real-backend", f"{what}: request {i}: sync -> {sa[1]}, {variant} -> {sb[1]} for a peer that is silent "
